@@ -184,6 +184,9 @@ typedef struct {
 	const br_ssl_server_policy_class *vtable;
 	const br_ssl_server_policy_class **inner;
 	int override_suite;     /* 0: none */
+	int override_algo;      /* 0: none; else algo_id written into the choices (0xFF00 + hash id) */
+	int forge;              /* 0: honest signature; 1: ECDSA r = s = Qx; 2: ECDSA r = s = 1; 3: RSA 00 01 FF.. 00; 4: all-zero signature */
+	const unsigned char *qx; size_t qx_len;
 } rogue_policy;
 
 static int
@@ -194,6 +197,10 @@ rogue_choose(const br_ssl_server_policy_class **pctx, const br_ssl_server_contex
 	int r = (*rp->inner)->choose(rp->inner, cc, choices);
 	if (rp->override_suite) {
 		choices->cipher_suite = (uint16_t)rp->override_suite;
+		r = 1;
+	}
+	if (rp->override_algo) {
+		choices->algo_id = (unsigned)rp->override_algo;
 		r = 1;
 	}
 	return r;
@@ -208,12 +215,35 @@ static size_t
 rogue_sign(const br_ssl_server_policy_class **pctx, unsigned algo_id, unsigned char *data, size_t hv_len, size_t len)
 {
 	rogue_policy *rp = (rogue_policy *)(void *)pctx;
-	return (*rp->inner)->do_sign(rp->inner, algo_id, data, hv_len, len);
+	size_t n, o = 0;
+	unsigned char v[70];
+	if (rp->forge == 0) return (*rp->inner)->do_sign(rp->inner, algo_id, data, hv_len, len);
+	if (rp->forge == 3 || rp->forge == 4) {
+		n = 256;
+		if (len < n) return 0;
+		memset(data, rp->forge == 3 ? 0xFF : 0x00, n);
+		if (rp->forge == 3) { data[0] = 0; data[1] = 1; data[n - 1] = 0; }
+		return n;
+	}
+	/* DER SEQUENCE { INTEGER v, INTEGER v } */
+	if (rp->forge == 1) { n = rp->qx_len; memcpy(v + 1, rp->qx, n); } else { n = 1; v[1] = 1; }
+	v[0] = 0;
+	{
+		const unsigned char *iv = v + 1; size_t il = n;
+		while (il > 1 && iv[0] == 0) { iv ++; il --; }
+		if (iv[0] & 0x80) { iv --; il ++; }
+		if (len < 2 * (il + 2) + 3) return 0;
+		data[o ++] = 0x30; data[o ++] = (unsigned char)(2 * (il + 2));
+		data[o ++] = 0x02; data[o ++] = (unsigned char)il; memcpy(data + o, iv, il); o += il;
+		data[o ++] = 0x02; data[o ++] = (unsigned char)il; memcpy(data + o, iv, il); o += il;
+	}
+	return o;
 }
 static const br_ssl_server_policy_class rogue_vtable = {
 	sizeof(rogue_policy), rogue_choose, rogue_keyx, rogue_sign
 };
 static rogue_policy rogue;
+static int rogue_extra[2];      /* override_algo, forge: set by the caller before the run */
 
 static void
 pre_reset_rogue(void *epv, void *arg)
@@ -221,8 +251,17 @@ pre_reset_rogue(void *epv, void *arg)
 	tp_ep *ep = epv;
 	rogue.vtable = &rogue_vtable;
 	rogue.inner = ep->sc->policy_vtable;
-	rogue.override_suite = *(int *)arg;
+	rogue.override_suite = ((int *)arg)[0];
+	rogue.override_algo = rogue_extra[0];
+	rogue.forge = rogue_extra[1];
 	br_ssl_server_set_policy(ep->sc, &rogue.vtable);
+}
+
+static void
+pre_reset_drop_hash(void *epv, void *arg)
+{
+	tp_ep *ep = epv;
+	br_ssl_engine_set_hash(ep->eng, *(int *)arg, NULL);
 }
 
 /* public keys for the scripted validator, decoded from fixture certificates */
@@ -629,6 +668,7 @@ auth_scenarios(long long seed)
 			uint16_t offered = suite_for(kx, v, 0);
 			uint16_t other = suite_for(kx, v, 1);
 			ov = other;
+			rogue_extra[0] = rogue_extra[1] = 0;
 			if (other != offered) {
 				run_scenario(&sc, NULL, 0, 0, &o, NULL, NULL, pre_reset_rogue, &ov, NULL, NULL);
 				expect_refused("server-chooses-suite-not-offered", &o, 0);
@@ -637,6 +677,34 @@ auth_scenarios(long long seed)
 				ov = suite_for(kx, 0x0303, 0);
 				run_scenario(&sc, NULL, 0, 0, &o, NULL, NULL, pre_reset_rogue, &ov, NULL, NULL);
 				expect_refused("server-chooses-tls12-only-suite-below-tls12", &o, 0);
+			}
+		}
+		/* wrong-signature-algorithm substitution: the client lacks a hash function; a rogue server signs its
+		   ServerKeyExchange with exactly that hash (honestly, or with trivial forgeries) */
+		if (v == 0x0303 && (kx == TP_KX_ECDHE_RSA || kx == TP_KX_ECDHE_ECDSA)) {
+			static const int hids[4] = { 2, 3, 5, 6 };
+			int hi, fg, zero = 0;
+			for (hi = 0; hi < 4; hi ++) for (fg = 0; fg < 5; fg ++) {
+				char nm[100];
+				int hid = hids[hi];
+				if (kx == TP_KX_ECDHE_ECDSA && (fg == 3)) continue;
+				if (kx == TP_KX_ECDHE_RSA && (fg == 1 || fg == 2)) continue;
+				rogue_extra[0] = 0xFF00 + hid; rogue_extra[1] = fg;
+				rogue.qx = pk_srv_ecec.ta.pkey.key.ec.q + 1; rogue.qx_len = 32;
+				run_scenario(&sc, NULL, 0, 0, &o, pre_reset_drop_hash, &hid, pre_reset_rogue, &zero, NULL, NULL);
+				snprintf(nm, sizeof nm, "ske-signed-with-hash-%d-the-client-lacks-forge-%d", hid, fg);
+				expect_refused(nm, &o, 0);
+			}
+			rogue_extra[0] = rogue_extra[1] = 0;
+			/* control: the same client (hash removed) with an honest server completes */
+			{
+				int hid = 2;
+				run_scenario(&sc, NULL, 0, 0, &o, pre_reset_drop_hash, &hid, NULL, NULL, NULL, NULL);
+				vf_stat("auth_controls", 1);
+				if (!o.c_ready || !o.s_ready || o.c_err || o.s_err) {
+					snprintf(tp_case, sizeof tp_case, "%s auth-case=control-client-without-sha1", scen_desc);
+					TP_VIOL("auth-control-failed", "handshake of a client without SHA-1 with an honest server did not complete");
+				}
 			}
 		}
 		/* version ranges that do not intersect; fallback SCSV */
